@@ -182,6 +182,12 @@ type forwardEntry struct {
 	addr    string // host:port or socket path
 	network string // tcp or unix
 	c       chan forward
+
+	// done is closed when the entry is removed from the list. It releases
+	// forward calls blocked sending on c. senders counts the sends in
+	// flight, so that c is closed only after the last of them has returned.
+	done    chan struct{}
+	senders *sync.WaitGroup
 }
 
 // forward represents an incoming forwarded tcpip connection. The
@@ -199,6 +205,8 @@ func (l *forwardList) add(n, addr string) chan forward {
 		addr:    addr,
 		network: n,
 		c:       make(chan forward, 1),
+		done:    make(chan struct{}),
+		senders: new(sync.WaitGroup),
 	}
 	l.entries = append(l.entries, f)
 	return f.c
@@ -281,35 +289,54 @@ func (l *forwardList) handleChannels(in <-chan NewChannel) {
 // listener.
 func (l *forwardList) remove(n, addr string) {
 	l.Lock()
-	defer l.Unlock()
 	for i, f := range l.entries {
 		if n == f.network && addr == f.addr {
 			l.entries = append(l.entries[:i], l.entries[i+1:]...)
+			close(f.done)
+			l.Unlock()
+			// No new sender can find the entry any more; wait for the ones
+			// in flight before closing the channel they send on.
+			f.senders.Wait()
 			close(f.c)
 			return
 		}
 	}
+	l.Unlock()
 }
 
 // closeAll closes and clears all forwards.
 func (l *forwardList) closeAll() {
 	l.Lock()
-	defer l.Unlock()
-	for _, f := range l.entries {
+	entries := l.entries
+	l.entries = nil
+	for _, f := range entries {
+		close(f.done)
+	}
+	l.Unlock()
+	for _, f := range entries {
+		f.senders.Wait()
 		close(f.c)
 	}
-	l.entries = nil
 }
 
 func (l *forwardList) forward(n, addr string, raddr net.Addr, ch NewChannel) bool {
 	l.Lock()
-	defer l.Unlock()
 	for _, f := range l.entries {
 		if n == f.network && addr == f.addr {
-			f.c <- forward{newCh: ch, raddr: raddr}
-			return true
+			// Do not hold the lock while waiting for the listener to
+			// accept: remove and closeAll need it to take the entry out.
+			f.senders.Add(1)
+			l.Unlock()
+			defer f.senders.Done()
+			select {
+			case f.c <- forward{newCh: ch, raddr: raddr}:
+				return true
+			case <-f.done:
+				return false
+			}
 		}
 	}
+	l.Unlock()
 	return false
 }
 
